@@ -175,10 +175,10 @@ def build(job):
         for rec in conv.records:            # record order of the converter
             r = [x for x in recs if sym_eq(x.prefix, rec.prefix)][0]
             for pfx in [r.prefix] + (list(rec.prefix_synonyms) if syn else []):
-                toks = ['[ sh:prefix "', esc_f(pfx), '" ; sh:namespace "', esc_f(r.uri_prefix), '"^^xsd:anyURI ']
+                toks = ['[ sh:prefix "', ("lit", pfx), '" ; sh:namespace "', ("lit", r.uri_prefix), '"^^xsd:anyURI ']
                 # an empty pattern counts as no pattern
                 if r.pattern is not None and not sym_eq(r.pattern, ""):
-                    toks += ['; sh:pattern "', esc_f(r.pattern), '"']
+                    toks += ['; sh:pattern "', ("lit", r.pattern), '"']
                 toks += [" ]"]
                 entries.append(toks)
         want = ["@prefix sh: <http://www.w3.org/ns/shacl#> . @prefix xsd: <http://www.w3.org/2001/XMLSchema#> . [ sh:declare "]
@@ -200,7 +200,7 @@ def build(job):
         got = []
         for p in flatten(eng.norm(_s(text))):
             got.append(z3str_to_py(p) if z3.is_string_value(p) else p)
-        got, want = norm(got), norm([t if isinstance(t, str) else _s(t) for t in want])
+        got, want = norm(got), norm(want)
         same = len(got) == len(want)
         if same:
             for g, w in zip(got, want):
@@ -208,7 +208,16 @@ def build(job):
                     if not (isinstance(g, str) and isinstance(w, str) and g.replace(" ", "") == w.replace(" ", "")):
                         same = False
                         break
-                elif not eng.check_holds(g == w, "write_shacl does not write a field as the Turtle string literal of the right record's value"):
+                    continue
+                v = _s(w[1])
+                if z3.is_app(g) and g.decl().name() == "json_escape_ascii":
+                    # reader model: JSON's string escapes are Turtle's ECHAR / UCHAR escapes, except that a character beyond
+                    # the BMP is written as a surrogate pair of \\uXXXX escapes, which a Turtle reader does not recombine
+                    from ..core import ANYSTR, ASTRAL
+                    reads_back = And(g.arg(0) == v, z3.Not(z3.InRe(v, z3.Concat(ANYSTR, ASTRAL, ANYSTR))))
+                else:
+                    reads_back = g == _s(esc_f(w[1]))       # Turtle string literal: backslashes doubled
+                if not eng.check_holds(reads_back, "write_shacl does not write a field as a Turtle string literal that reads back as the right record's value"):
                     return "ok"
         eng.expect(same, "write_shacl does not produce one well-formed sh:declare entry per record (and synonym) in record order")
         return "ok"
